@@ -4,7 +4,9 @@ Only the property text and a scratch worktree path are handed over (nothing from
 import json, sys
 pid = sys.argv[1]
 wt = sys.argv[2]
-round2 = len(sys.argv) > 3 and sys.argv[3] in ('2', '3')
+round2 = len(sys.argv) > 3 and sys.argv[3] in ('2', '3', '4')
+round4 = len(sys.argv) > 3 and sys.argv[3] == '4'
+flavour = sys.argv[4] if len(sys.argv) > 4 else 'a'
 round3 = len(sys.argv) > 3 and sys.argv[3] == '3'
 for l in open('/verif/properties.jsonl'):
     p = json.loads(l)
@@ -42,4 +44,12 @@ if round2:
     text = text.replace("_out/", "_out2/").replace("m1", "m3").replace("m2", "m4")
 if round3:
     text = text.replace('_out2/', '_out3/').replace('m3', 'm5').replace('m4', 'm6')
+if round4:
+    extra = {
+        'a': 'For this task, BOTH changes must be of the "two cooperating sites" kind: two edits in different functions (preferably different files) that each look correct alone and only together break the property under a specific sequence or input.',
+        'b': 'For this task, BOTH changes must live on a rarely executed path: an error path, a boundary branch, an early-return special case, a fallback, or behaviour for inputs at the very edge of the stated domain (extreme sizes, extreme integer values, empty or nil inputs, maximal heights/widths).',
+        'c': 'For this task, BOTH changes must look like performance work: a cache or memo, a fast path, loop unrolling or word/block-at-a-time processing, a lookup table, buffer reuse/pooling, lazy initialisation, avoiding an allocation or a copy. The slow/simple path must stay correct.',
+    }[flavour]
+    text = text.replace('What I need from you: TWO different changes', extra + '\n\nWhat I need from you: TWO different changes')
+    text = text.replace('_out2/', '_out4/').replace('m3', 'm7').replace('m4', 'm8')
 print(text)
